@@ -118,6 +118,21 @@ fn gen(rng: &mut Rng, tier: Tier) -> Vec<Case> {
         if rng.chance(1, 4) { qs.push(Rec::new("nochrom", 0, 100)); }
         out.push(Case::new(if small { "boundary" } else { "random" }, enc(&C { xs, qs })));
     }
+    if tier == Tier::Thorough {
+        // LARGE region sets: more than 2^16 regions (a 16-bit position, a block-wise build), on one, two or 300 chromosomes;
+        // the driver evaluates only the spec on these (array-based), not the quadratic model
+        for (n, nch) in [(9_000usize, 2usize), (70_000, 1), (66_000, 300)] {
+            let xs: Vec<Rec> = (0..n as u64).map(|i| { let ch = format!("ctg{}", if nch == 300 { i % 300 } else { (i * nch as u64) / n as u64 }); Rec::new(&ch, 10 * (i / if nch == 300 { 300 } else { 1 }), 10 * (i / if nch == 300 { 300 } else { 1 }) + rng.range(1, 14)) }).collect();
+            let mut qs = vec![];
+            for _ in 0..30 {
+                let r = rng.pick(&xs).clone();
+                let s = r.start.saturating_sub(rng.below(25)); qs.push(Rec::new(&r.chrom, s, s + rng.range(1, 60)));
+            }
+            // the last regions (positions above 2^16) in particular
+            for k in 1..6 { let r = xs[n - k].clone(); qs.push(Rec::new(&r.chrom, r.start, r.end)); }
+            out.push(Case::new("large", enc(&C { xs, qs })));
+        }
+    }
     add_flavours(rng, &mut out);
     out
 }
